@@ -323,7 +323,8 @@ _METHODS = {
     'movedim': lambda libs, t, src, dst: libs._movedim(t, src, dst),
     'flatten': lambda libs, t, start_dim=0, end_dim=-1: libs._flatten(t, start_dim, end_dim),
     'expand': lambda libs, t, *sizes: _expand(libs, t, *sizes),
-    'new_empty': _new_zeros,
+    'new_empty': lambda libs, t, *size, dtype=None, **k: ops.opaque(_shape_args(size), libs._dtype_tag(dtype, t.dtype), 'uninit', 'uninitialised memory', device=t.device),
+    'new_ones': lambda libs, t, *size, dtype=None, **k: ops.opaque(_shape_args(size), libs._dtype_tag(dtype, t.dtype), 'const', 'constant(1)', device=t.device),
     'repeat_interleave': lambda libs, t, repeats, dim=None: libs._repeat_interleave(t, repeats, dim),
     'chunk': lambda libs, t, chunks, dim=0: libs._torch_chunk(t, chunks, dim),
     'split': lambda libs, t, size, dim=0: libs._torch_split(t, size, dim),
